@@ -346,13 +346,18 @@ void _vnacal_teardown_parameter_collection(vnacal_t *vcp)
     for (int i = vprmcp->vprmc_allocation - 1; i >= 0; --i) {
 	vnacal_parameter_t *vpmrp = vprmcp->vprmc_vector[i];
 
-	if (vpmrp != NULL) {
-	    assert(!vpmrp->vpmr_deleted);
+	/*
+	 * A parameter the user has deleted is still in the table while
+	 * another parameter holds it; it goes away with its holder, which
+	 * can have a lower index (indices are reused).  Likewise, releasing
+	 * our reference does not free a parameter that is still held.
+	 */
+	if (vpmrp != NULL && !vpmrp->vpmr_deleted) {
 	    vpmrp->vpmr_deleted = true;
 	    _vnacal_release_parameter(vpmrp);
-	    assert(vprmcp->vprmc_vector[i] == NULL);
 	}
     }
+    assert(vprmcp->vprmc_count == 0);
     free((void *)vprmcp->vprmc_vector);
     (void)memset((void *)&vcp->vc_parameter_collection, 0,
 	    sizeof(vcp->vc_parameter_collection));
